@@ -13,3 +13,4 @@ import TLX.Props.Translated.TlsSess
 import TLX.Props.Translated.Reasm
 import TLX.Props.Translated.Frames
 import TLX.Props.Translated.Checksum
+import TLX.Props.Translated.Suites
